@@ -7,6 +7,7 @@ import (
 	"time"
 
 	simplefixgo "github.com/b2broker/simplefix-go"
+	"github.com/b2broker/simplefix-go/session"
 	"github.com/b2broker/simplefix-go/session/messages"
 	"pgregory.net/rapid"
 
@@ -20,16 +21,18 @@ import (
 
 type C08Case struct {
 	Script
-	N       int      `json:"n"`                // negotiated interval, seconds
-	Periods int      `json:"periods"`          // horizon in periods
-	LogonAt int64    `json:"logon_at"`         // initiator: virtual ns at which the peer's Logon arrives
-	Silence bool     `json:"silence"`          // the peer falls silent once, long enough to be probed
-	N2      int      `json:"n2"`               // acceptor: after the first horizon the peer logs out and on again with this interval (0: no re-logon)
-	Relogon int      `json:"relogon"`          // index of the second Logon step
-	BadLogouts int   `json:"bad_logouts,omitempty"`
-	RefuseHB int     `json:"refuse_hb,omitempty"` // the application handler refuses the k-th unsolicited Heartbeat (0: none): that one is not transmitted; the timer must try again a period later
-	RemoveAt string  `json:"remove_at,omitempty"` // the application removes its own (accepting, all-types) logging handler right before this send step
-	Refuse  []string `json:"refuse,omitempty"` // application sends that an application outgoing handler (registered before the session's own) refuses: they are not transmitted, so they must not postpone the heartbeat
+	N           int      `json:"n"`               // negotiated interval, seconds
+	Periods     int      `json:"periods"`         // horizon in periods
+	LogonAt     int64    `json:"logon_at"`        // initiator: virtual ns at which the peer's Logon arrives
+	Silence     bool     `json:"silence"`         // the peer falls silent once, long enough to be probed
+	N2          int      `json:"n2"`              // acceptor: after the first horizon the peer logs out and on again with this interval (0: no re-logon)
+	Relogon     int      `json:"relogon"`         // index of the second Logon step
+	Asked       int      `json:"asked,omitempty"` // acceptor: the interval the client asked for when the logon callback overrides it with N (0: no override)
+	BadLogouts  int      `json:"bad_logouts,omitempty"`
+	ErrCallback bool     `json:"err_callback,omitempty"`
+	RefuseHB    int      `json:"refuse_hb,omitempty"` // the application handler refuses the k-th unsolicited Heartbeat (0: none): that one is not transmitted; the timer must try again a period later
+	RemoveAt    string   `json:"remove_at,omitempty"` // the application removes its own (accepting, all-types) logging handler right before this send step
+	Refuse      []string `json:"refuse,omitempty"`    // application sends that an application outgoing handler (registered before the session's own) refuses: they are not transmitted, so they must not postpone the heartbeat
 }
 
 var stdIntervals = []int{1, 2, 3, 5, 10, 20, 30, 60}
@@ -92,7 +95,17 @@ func genC08(t *rapid.T) *C08Case {
 		tl.steps = append(tl.steps, rig.Step{Op: "advance", Dt: c.LogonAt})
 		tl.now = c.LogonAt
 	}
-	tl.steps = append(tl.steps, rig.Step{Op: "in", In: g.goodLogon(n)})
+	ask := n
+	if cfg.Role == "acceptor" && rapid.IntRange(0, 4).Draw(t, "callbackSetsInterval") == 0 {
+		// the client asks for another interval; the application's logon callback sets N (a server policy):
+		// the Logon answer and the timers both follow the callback
+		if ask = rapid.IntRange(1, 120).Draw(t, "asked"); ask != n {
+			c.Cfg.CallbackHB = n
+			c.Asked = ask
+		}
+	}
+	tl.steps = append(tl.steps, rig.Step{Op: "in", In: g.goodLogon(ask)})
+	g.hb = n
 	tl.lastIn = tl.now
 	start := tl.now
 	horizon := start + int64(c.Periods)*N
@@ -170,7 +183,7 @@ func genC08(t *rapid.T) *C08Case {
 		}
 	}
 	tl.advanceTo(horizon)
-	if cfg.Role == "acceptor" && !c.Silence && rapid.IntRange(0, 3).Draw(t, "relogon") == 0 {
+	if cfg.Role == "acceptor" && !c.Silence && c.Asked == 0 && rapid.IntRange(0, 3).Draw(t, "relogon") == 0 {
 		// logout handshake and a new Logon with another interval on the same connection
 		c.N2 = rapid.SampledFrom([]int{1, 2, 3, 5, 10, 30}).Draw(t, "n2")
 		tl.steps = append(tl.steps, rig.Step{Op: "in", In: g.logout()})
@@ -189,6 +202,9 @@ func genC08(t *rapid.T) *C08Case {
 	c.MaxHB = n
 	if rapid.IntRange(0, 5).Draw(t, "refuseHB") == 0 {
 		c.RefuseHB = rapid.IntRange(1, 4).Draw(t, "refuseHBk")
+		// the application has an error callback (Session.OnError) which uses the session: it reports the
+		// failed send to the peer with an application message
+		c.ErrCallback = rapid.Bool().Draw(t, "errCallback")
 	}
 	if rapid.IntRange(0, 4).Draw(t, "removesHandler") == 0 {
 		var sends []string
@@ -238,6 +254,14 @@ func checkC08(c *C08Case, rec *evid.Rec) (vs []pbt.Violation) {
 				return !refuse[id]
 			})
 		}}
+		if c.ErrCallback {
+			hooks.AfterRun = func(h *simplefixgo.DefaultHandler, s *session.Session, log *rig.EventLog) {
+				s.OnError(func(err error) {
+					log.Add(rig.Event{Kind: "error-callback"})
+					_ = s.Send(rig.NewApp("from-error-callback"))
+				})
+			}
+		}
 		if c.RemoveAt != "" {
 			hooks.AppMessage = func(st *rig.Step) messages.Message {
 				if st.ID == c.RemoveAt && hRef != nil {
@@ -326,6 +350,22 @@ func checkC08(c *C08Case, rec *evid.Rec) (vs []pbt.Violation) {
 	nontrivial := periods >= 3 && (nearDeadline || idle)
 	rec.Case(evid.FPs(fmt.Sprintf("%s|%d|%d|%d|%v%v", c.Cfg.Role, c.N, len(c.Steps), len(outs), nearDeadline, idle)), nontrivial)
 	rec.Hist("role:" + c.Cfg.Role)
+	if c.Asked > 0 {
+		rec.Hist("interval-set-by-the-logon-callback")
+		for _, o := range tr.Steps[0].Out {
+			if got, _ := o.Get(rig.TagHeartBtInt); o.Type == rig.TLogon && got != fmt.Sprint(c.N) && len(vs) == 0 {
+				vs = append(vs, pbt.V("answer-interval", "the logon callback set HeartBtInt %d (the client asked for %d), the Logon answer carries %q", c.N, c.Asked, got))
+			}
+		}
+	}
+	if c.ErrCallback {
+		for _, e := range tr.Log.Since(0) {
+			if e.Kind == "error-callback" {
+				rec.Hist("error-callback-sends-through-the-session")
+				break
+			}
+		}
+	}
 	if nearDeadline {
 		rec.Hist("send-near-deadline")
 	}
